@@ -64,6 +64,9 @@ func runSupervisor(c *Ctx, pkg string) {
 	s.start(start, exec)
 	s.execute(exec, start)
 	s.api(start, exec)
+	if pkg == "routine" {
+		s.routineExtras()
+	}
 	if pkg == "keyed" {
 		s.keyedExtras()
 	}
@@ -627,5 +630,72 @@ func (s *sup) keyedExtras() {
 				}
 			}
 		})
+	}
+}
+
+// routineExtras: WaitExited judges the record that is current in its subscribing section; the state
+// container stores the state before it rebuilds the routine, and the routine closure captures the
+// copy.
+func (s *sup) routineExtras() {
+	c, a := s.c, s.a
+	if d := c.declByName("R12", "routine", "RoutineContainer", "WaitExited"); d != nil {
+		name := core.FuncName(d.Obj)
+		c.Walk("R12", &core.Config{EmitAccess: true}, core.Entry{Decl: d}, func(p *core.Path) {
+			g := prepare(c, p)
+			for i, ev := range p.Events {
+				if ev.Kind != core.KAccess || ev.Write || ev.Base == nil {
+					continue
+				}
+				fn := core.FieldName(ev.Var)
+				if fn != s.f("exited") && fn != s.f("success") && fn != s.f("err") {
+					continue
+				}
+				t, _ := g.builderAt(i).term(ev.Base, ev.Frame)
+				a.note("R12", name+"/status-of-current-record", ev.Pos, !(t == s.slot && holdsLock(ev, s.lock)),
+					"the exit status is read from the record that is in the container's slot in this critical section",
+					"the exit status is read through "+c.Pretty(t)+", which is not the container's current record as read in this critical section: WaitExited can report the result of a superseded instance", p)
+			}
+		})
+		a.expect("R12", name+"/status-of-current-record", 1, "reads of exited/success/err in WaitExited")
+	}
+	if d := c.declByName("R12", "routine", "StateRoutineContainer", "setStateLocked"); d != nil {
+		name := core.FuncName(d.Obj)
+		c.Walk("R12", &core.Config{Follow: func(f *types.Func) bool { return false }}, core.Entry{Decl: d}, func(p *core.Path) {
+			stored := false
+			for _, ev := range p.Events {
+				if assignsField(ev, "routine.StateRoutineContainer.s", "") {
+					stored = true
+				}
+				if (ev.Kind == core.KCall || ev.Kind == core.KEnter) && ev.Callee != nil && ev.Callee.Name() == "updateStateRoutineLocked" {
+					a.note("R12", name+"/store-state-before-rebuild", ev.Pos, !stored, "the new state is stored before the routine is rebuilt from it",
+						"the routine is rebuilt before the new state is stored: the new instance runs with the previous state", p)
+				}
+			}
+		})
+		a.expect("R12", name+"/store-state-before-rebuild", 1, "updateStateRoutineLocked in setStateLocked")
+	}
+	if d := c.declByName("R12", "routine", "StateRoutineContainer", "updateStateRoutineLocked"); d != nil {
+		name := core.FuncName(d.Obj)
+		n := 0
+		ast.Inspect(d.Decl.Body, func(nd ast.Node) bool {
+			lit, ok := nd.(*ast.FuncLit)
+			if !ok {
+				return true
+			}
+			n++
+			bad := ""
+			ast.Inspect(lit.Body, func(x ast.Node) bool {
+				if sel, ok := x.(*ast.SelectorExpr); ok {
+					if fv := fieldVar(sel, &core.Frame{Pkg: d.Pkg}); fv != nil && strings.HasPrefix(core.FieldName(fv), "routine.StateRoutineContainer.") {
+						bad = core.FieldName(fv)
+					}
+				}
+				return true
+			})
+			a.note("R12", name+"/closure-captures-copy", lit.Pos(), bad != "", "the routine closure uses the state and function copied under the lock",
+				"the routine closure reads "+bad+" when it runs, outside the lock and possibly after a newer state was stored", nil)
+			return false
+		})
+		_ = n
 	}
 }
